@@ -158,6 +158,10 @@ def check(case):
         return reps
 
     prog, ref, run = runcheck.run_and_ref(case["program"], reporters=reporters)
+    if isinstance(run.escaped, KeyboardInterrupt) and case.get("interrupt"):
+        # interrupt in before_all / after_all leaves run() itself: nothing is summarised
+        res.label("interrupt-escaped")
+        return res
     if run.escaped is not None:
         res.fail("C14.escape", "exception escaped run() with summary reporters: %r" % (run.escaped,))
         return res
@@ -245,19 +249,31 @@ def check(case):
         res.label("has-rule")
     if prog.get("hook_faults"):
         res.label("hook-fault")
+    if case.get("interrupt"):
+        res.label("interrupted-in-hook")
     if (prog.get("cfg") or {}).get("dry_run"):
         res.label("dry-run")
     return res
 
 
+@st.composite
+def interrupted_case(draw):
+    """A KeyboardInterrupt (or context.abort()) inside a hook cuts the run short."""
+    prog = draw(gen.program_st(faults=False, max_features=3))
+    kind = draw(st.sampled_from(["KeyboardInterrupt", "KeyboardInterrupt", "abort"]))
+    prog["hook_faults"] = [[draw(st.integers(0, 10000)), kind]]
+    return {"program": prog, "interrupt": True}
+
+
 def explore(rec):
     quick = rec.tier == "quick"
     rec.hyp("runs", gen.program_st().map(lambda p: {"program": p}), 6000 if quick else 150000)
+    rec.hyp("interrupted-in-hook", interrupted_case(), 1500 if quick else 30000)
 
 
 def required_labels(tier):
     return ["status:" + s for s in ["passed", "failed", "error", "hook_error", "skipped", "untested", "undefined",
-                                    "pending", "pending_warn"]] + ["cut-short", "has-rule", "hook-fault", "dry-run"]
+                                    "pending", "pending_warn"]] + ["cut-short", "has-rule", "hook-fault", "dry-run", "interrupted-in-hook"]
 
 
 KNOWN_PREDICATES = {}
